@@ -127,6 +127,44 @@ type srvWorld struct {
 	serve2Done bool
 }
 
+// c20Plan returns the backend's plan for a scenario (shared by the schedule explorer and the race replays).
+func c20Plan(sc SrvScenario) func(int) h.DataPlan {
+	switch sc.Plan {
+	case "noread":
+		// a backend that does not read: it waits until told (gate) and returns what the reader then says
+		return func(int) h.DataPlan { return h.DataPlan{Max: 0, KeepErr: true} }
+	case "statuses-case":
+		return func(int) h.DataPlan {
+			return h.DataPlan{Max: -1, Status: []h.StatusCall{{Rcpt: "ok1@b.example", Err: nil}, {Rcpt: "ok1@B.Example", Err: h.RejErr("the other one"), AfterRead: true}}}
+		}
+	case "reject":
+		// reads the message, sets no status, reports through its return value
+		return func(int) h.DataPlan { return h.DataPlan{Max: -1, Verdict: h.RejErr("message")} }
+	case "panic-when-done":
+		// reads until the reader ends - with the end of the message or with the error of an aborted transfer -, then panics
+		return func(int) h.DataPlan { return h.DataPlan{Max: -1, Panic: true, KeepErr: true} }
+	case "panic-first-when-done":
+		// the same for the first delivery only; later messages are read and accepted
+		return func(idx int) h.DataPlan {
+			if idx == 0 {
+				return h.DataPlan{Max: -1, Panic: true, KeepErr: true}
+			}
+			return h.ReadAll
+		}
+	case "earlyreturn":
+		// a per-recipient backend that reports every recipient and returns without reading the message: the server
+		// has to skip the rest of the message itself, before it goes back to reading commands
+		return func(int) h.DataPlan {
+			return h.DataPlan{Max: 0, Status: []h.StatusCall{{Rcpt: "ok1@b.example", Err: h.RejErr("ok1")}, {Rcpt: "ok2@b.example", Err: nil}}}
+		}
+	case "statuses":
+		return func(int) h.DataPlan {
+			return h.DataPlan{Max: -1, Status: []h.StatusCall{{Rcpt: "ok1@b.example", Err: nil}, {Rcpt: "ok2@b.example", Err: h.RejErr("ok2"), AfterRead: true}}}
+		}
+	}
+	return nil
+}
+
 func (w *srvWorld) Start(x *h.Exec) {
 	w.x = x
 	sc := w.sc
@@ -145,31 +183,7 @@ func (w *srvWorld) Start(x *h.Exec) {
 			x.Point("be:" + step)
 		}
 	}
-	switch sc.Plan {
-	case "noread":
-		// a backend that does not read: it waits until told (gate) and returns what the reader then says
-		w.be.Plan = func(int) h.DataPlan { return h.DataPlan{Max: 0, KeepErr: true} }
-	case "statuses-case":
-		w.be.Plan = func(int) h.DataPlan {
-			return h.DataPlan{Max: -1, Status: []h.StatusCall{{Rcpt: "ok1@b.example", Err: nil}, {Rcpt: "ok1@B.Example", Err: h.RejErr("the other one"), AfterRead: true}}}
-		}
-	case "reject":
-		// reads the message, sets no status, reports through its return value
-		w.be.Plan = func(int) h.DataPlan { return h.DataPlan{Max: -1, Verdict: h.RejErr("message")} }
-	case "panic-when-done":
-		// reads until the reader ends - with the end of the message or with the error of an aborted transfer -, then panics
-		w.be.Plan = func(int) h.DataPlan { return h.DataPlan{Max: -1, Panic: true, KeepErr: true} }
-	case "earlyreturn":
-		// a per-recipient backend that reports every recipient and returns without reading the message: the server
-		// has to skip the rest of the message itself, before it goes back to reading commands
-		w.be.Plan = func(int) h.DataPlan {
-			return h.DataPlan{Max: 0, Status: []h.StatusCall{{Rcpt: "ok1@b.example", Err: h.RejErr("ok1")}, {Rcpt: "ok2@b.example", Err: nil}}}
-		}
-	case "statuses":
-		w.be.Plan = func(int) h.DataPlan {
-			return h.DataPlan{Max: -1, Status: []h.StatusCall{{Rcpt: "ok1@b.example", Err: nil}, {Rcpt: "ok2@b.example", Err: h.RejErr("ok2"), AfterRead: true}}}
-		}
-	}
+	w.be.Plan = c20Plan(sc)
 	x.Filter = func(name string) bool {
 		if strings.HasPrefix(name, "lock:") {
 			return sc.Locks
@@ -322,6 +336,17 @@ func (w *srvWorld) Finish(x *h.Exec) *h.Finding {
 	}
 	h.Wait()
 	x.Drain()
+	h.Wait()
+	x.Drain()
+	h.Wait()
+	// every peer has hung up and nothing holds the backend back any more: the server must have given up every
+	// connection by itself - before anybody calls Close (which would release a delivery that waits for octets that
+	// can never arrive, and hide that the handler would have waited with it for ever)
+	for ci, c := range w.conns {
+		if !c.server.IsClosed() {
+			return h.F("c20-handler-outlives-peer", "%s: the peer of connection %d has disconnected and every backend step is free to run, yet the server still holds the connection (wire so far %q)", desc, ci, c.client.In.Log)
+		}
+	}
 	anyStop := false
 	for _, a := range w.admin {
 		if a.name == "close" || a.name == "shutdown" {
@@ -502,6 +527,14 @@ func c20Scenarios(tier string) []SrvScenario {
 	for _, next := range [][]string{{"RSET\r\n"}, {"QUIT\r\n"}, {"<EOF>"}, {"BDAT 3 LAST\r\nabc"}} {
 		name := strings.Fields(strings.ReplaceAll(next[0], "<EOF>", "disconnect"))[0]
 		out = append(out, SrvScenario{Name: "F1-bdat-backend-panics-when-reader-ends-" + name, Accepts: []string{"conn"}, Clients: [][]string{append([]string{chunk}, next...)}, Admin: []string{"close"}, Gates: []string{"return"}, Plan: "panic-when-done", Chunked: true})
+	}
+	// ... and the connection goes on with another chunked transaction (whatever the panicking delivery still does when
+	// it is abandoned must not reach into the next one)
+	out = append(out, SrvScenario{Name: "F1-bdat-backend-panics-when-aborted-then-next-chunked-transaction", Accepts: []string{"conn"}, Clients: [][]string{{chunk, "RSET\r\n", "MAIL FROM:<ok@c.example>\r\nRCPT TO:<ok1@d.example>\r\nBDAT 5\r\nagain", "BDAT 4 LAST\r\nmore", "QUIT\r\n"}}, Admin: []string{"close"}, Gates: []string{"return"}, Plan: "panic-first-when-done", Chunked: true})
+	// LMTP: the connection is lost inside the LAST chunk (the delivery must be released, every goroutine must end)
+	for _, plan := range []string{"statuses", "reject"} {
+		out = append(out, SrvScenario{Name: "F2-lmtp-disconnect-inside-the-LAST-chunk-" + plan, LMTP: true, Accepts: []string{"conn"}, Clients: [][]string{{lm, "BDAT 10 LAST\r\nabc", "<EOF>"}}, Admin: []string{"close"}, Gates: []string{"return"}, Plan: plan, Chunked: true})
+		out = append(out, SrvScenario{Name: "F2-lmtp-disconnect-inside-the-second-LAST-chunk-" + plan, LMTP: true, Accepts: []string{"conn"}, Clients: [][]string{{lm, "BDAT 2\r\nms", "BDAT 10 LAST\r\nabc", "<EOF>"}}, Admin: []string{"close"}, Gates: []string{"return"}, Plan: plan, Chunked: true})
 	}
 	// a backend whose Logout returns an error: the connection is closed all the same
 	out = append(out, SrvScenario{Name: "F3-logout-returns-an-error-close", LogoutErr: true, Accepts: []string{"conn"}, Clients: [][]string{{"EHLO c.example\r\n", "NOOP\r\n"}}, Admin: []string{"close"}})
